@@ -71,6 +71,7 @@ def install(formatting_stub=True, linear_to_bytes=True):
 
     _bl.SymbolicBytes.ljust = ljust
 
+    _installed['int_repr'] = _bl.SymbolicInt.__repr__        # the library's digit-by-digit rendering (used by patch 8's fallback)
     if formatting_stub:
         _stub_formatting(_core, _bl, NoTracing)
     if linear_to_bytes:
@@ -227,7 +228,7 @@ def int_str_roundtrip():
     from crosshair.tracers import NoTracing, ResumedTracing
     from crosshair.libimpl import builtinslib as _bl
     from crosshair.util import CrossHairValue
-    orig_repr = _bl.SymbolicInt.__repr__
+    orig_repr = _installed.get('int_repr') or _bl.SymbolicInt.__repr__
 
     class IntStr(_bl.LazyIntSymbolicStr):
         def __init__(self, src):
